@@ -42,6 +42,12 @@ def case(z, kinds_per_thread, pb=None, family=''):
     return dict(z=z, progs=[prog(t, ks) for t, ks in enumerate(kinds_per_thread)], pb=pb, family=family)
 
 
+def big_case():
+    """a frame larger than the 64 KiB receive/transfer buffer against a small frame of another thread"""
+    big = bytes((i * 7 + 3) % 251 for i in range(70000)).hex()
+    return dict(z=0, progs=[['sb0=' + big], ['pi=' + b'p1.0'.hex(), 'st0=' + msg(1, 1)]], pb=None, family='plain-big-frame')
+
+
 def witnesses():
     """the two D7 schedules at sync granularity (always part of a run)"""
     c = case(1, [['st1'], ['st1']])
@@ -72,6 +78,7 @@ def families(tier):
     fams = [
         case(0, [['st0'], ['sb0']], family='plain'),
         case(0, [['st0', 'pi'], ['sb0', 'po']], family='plain'),
+        big_case(),
         case(1, [['st1'], ['st1']], family='deflate'),
         case(2, [['st1'], ['sb1']], family='deflate-reset'),
         case(1, [['st1'], ['sb0']], family='deflate'),
